@@ -29,4 +29,27 @@ MUT = {
  'c10_lifo': ('aiuti/asyncio.py', "        self._queue = aio.Queue()\n        self.max_batch_size", "        self._queue = aio.LifoQueue()\n        self.max_batch_size", 'C10'),
  'c10_sem_plus1': ('aiuti/asyncio.py', "aio.Semaphore(value=max_concurrent_batches)", "aio.Semaphore(value=max_concurrent_batches + 1)", 'C10'),
  'c10_timeout_double': ('aiuti/asyncio.py', "                tasks.append(await aio.wait_for(q.get(), self.batch_timeout))", "                tasks.append(await aio.wait_for(q.get(), self.batch_timeout * (2 if len(tasks) > 1 else 1)))", 'C10'),
+ 'c11_no_evict': ('aiuti/asyncio.py', "            else:\n                del self._retention_cache[key]", "            else:\n                pass", 'C11'),
+ 'c11_evict_early': ('aiuti/asyncio.py', """        fut = self._retention_cache[key] = self._loop.create_future()
+        await self._queue.put((key, arg, fut))
+""", """        fut = self._loop.create_future()
+        await self._queue.put((key, arg, fut))
+""", 'C11'),
+ 'c11_ignore_retention': ('aiuti/asyncio.py', "            if self.retention_timeout > 0:\n                self._loop.call_later(", "            if self.retention_timeout > 1e9:\n                self._loop.call_later(", 'C11'),
+ 'c11_lookup_by_arg': ('aiuti/asyncio.py', "            fut = self._retention_cache[key]\n", "            fut = self._retention_cache[str(arg)]\n", 'C11'),
+ 'c11_call_soon': ('aiuti/asyncio.py', """                self._loop.call_later(
+                    self.retention_timeout,
+                    self._retention_cache.pop,
+                    key,
+                )""", """                self._loop.call_soon(
+                    self._retention_cache.pop,
+                    key,
+                )""", 'C11'),
+ 'c11_retention_from_start': ('aiuti/asyncio.py', """        fut = self._retention_cache[key] = self._loop.create_future()
+        await self._queue.put((key, arg, fut))
+""", """        fut = self._retention_cache[key] = self._loop.create_future()
+        if self.retention_timeout > 0:
+            self._loop.call_later(self.retention_timeout, self._retention_cache.pop, key, None)
+        await self._queue.put((key, arg, fut))
+""", 'C11'),
 }
